@@ -33,6 +33,7 @@ use crate::{
         param_type_imports_to_import_param_statement, param_type_imports_to_import_statement,
         reader_imports_to_import_statement,
     },
+    js_string::escape_for_single_quoted_js_string,
     reader_ast::generate_reader_ast,
 };
 
@@ -565,7 +566,8 @@ fn generate_function_import_statement(
 
     let const_export_name = target_field_info.info.const_export_name;
     ClientScalarSelectableFunctionImportStatement(format!(
-        "import {{ {const_export_name} as resolver }} from '{file_name}';"
+        "import {{ {const_export_name} as resolver }} from '{}';",
+        escape_for_single_quoted_js_string(file_name)
     ))
 }
 
